@@ -431,6 +431,15 @@ Proof.
   rewrite <- (map_id ts) at 2. apply map_ext_in. intros t Hin. unfold grow. rewrite (Hr t Hin), app_nil_r. now destruct t.
 Qed.
 
+Lemma items_text_ends_nl (its : list item) : its <> [] -> exists x, items_text its = x ++ [NL].
+Proof.
+  intros H. destruct (exists_last H) as [its' [i ->]]. rewrite items_text_app. unfold items_text at 2. cbn [map concat].
+  rewrite app_nil_r. destruct i; cbn [item_text]; eexists; rewrite app_assoc; reflexivity.
+Qed.
+
+Lemma append_sep_items (its : list item) : its <> [] -> append_sep (items_text its) = [].
+Proof. intros H. destruct (items_text_ends_nl its H) as [x ->]. apply append_sep_nl. Qed.
+
 Theorem append_preserves0 fs o d a clock : SInv0 fs o d -> aok d a = true -> clock_ok clock = true ->
   exists fs' o' out, do_append fs o a clock = (fs', o', out) /\ SInv0 fs' o' (spec_append d a) /\ o_file o' = o_file o /\
     ((out = Ok /\ exists new, new <> [] /\ o_contents o' = o_contents o ++ new /\ fs_get fs' (o_file o) = Some (o_contents o ++ new)) \/
@@ -450,7 +459,7 @@ Proof.
     destruct (new_body_nil d a Eb) as [N1 N2]. rewrite (spec_append_nothing d a N1 N2).
     exists fs, o, Warned. split; [reflexivity|]. split; [|split; [reflexivity|right; auto]].
     split; [exact Hd|]. exists tws, its, st'. repeat (split; [assumption|]). assumption.
-  - rewrite Ef. rewrite <- Eb.
+  - rewrite Ef. rewrite <- Eb. assert (Esep : append_sep (o_contents o) = []) by (rewrite Ec; apply (append_sep_items its Hne)). rewrite Esep. rewrite !app_nil_l.
     set (new := S_APPENDED ++ clock ++ [46; NL] ++ new_body d a).
     assert (Enew : new = items_text (new_items d a clock)) by (symmetry; apply new_items_text).
     destruct (grow_tws_facts (d_enums d) a tws Hok) as [Hok' [Esy [Est Efst]]].
@@ -601,16 +610,17 @@ Proof.
   intros [c H] Ha Hc Hb. rewrite <- (aok_set_comments d c a) in Ha. rewrite <- (new_body_set_comments d c a) in Hb.
   destruct (append_preserves0 fs o (set_comments d c) a clock H Ha Hc) as [fs' [o' [out [E [HI _]]]]].
   destruct (SInv0_Inv _ _ _ HI) as [_ [Ep Es]]. pose proof E as E0.
-  destruct H as [Hd [tws [its [st' H]]]]. destruct H as (_&_&_&_&_&_&_&_&_&Ef&Es0&Hn).
+  destruct H as [Hd [tws [its [st' H]]]]. destruct H as (_&_&_&Hne&_&_&_&_&Ec&Ef&Es0&Hn).
+  assert (Esep : append_sep (o_contents o) = []) by (rewrite Ec; apply (append_sep_items its Hne)).
   unfold aok in Ha. apply andb_true_iff in Ha as [_ Hent].
-  unfold do_append in E. destruct (o_file o) as [|f0 f1] eqn:Efile; [congruence|]. rewrite <- Efile in *.
+  unfold do_append in E. rewrite Esep in E. destruct (o_file o) as [|f0 f1] eqn:Efile; [congruence|]. rewrite <- Efile in *.
   rewrite (append_pairs_spec _ (o_state o) a Es0 Hent) in E. rewrite (sem_table_names _ (o_state o) Es0) in E. unfold doc_tnames in E.
   rewrite (append_rows_spec _ a Hent (d_tables (set_comments d c))) in E by (intros x Hx; exact Hx).
   change (concat (map render_pair (spec_pairs (set_comments d c) a)) ++
           concat (map (fun t => concat (map (render_row (upper (t_name t))) (spec_rows a (upper (t_name t))))) (d_tables (set_comments d c))))
     with (new_body (set_comments d c) a) in E.
   rewrite new_body_set_comments in *.
-  destruct (new_body d a) as [|b0 body] eqn:Eb; [congruence|]. rewrite Ef in E.
+  destruct (new_body d a) as [|b0 body] eqn:Eb; [congruence|]. rewrite Ef in E. rewrite !app_nil_l in E.
   destruct (parse (o_contents o ++ S_APPENDED ++ clock ++ [46; NL] ++ b0 :: body)) as [p'|] eqn:P;
     injection E as E1 E2 E3; subst fs' o' out; cbn [o_contents o_state] in Ep, Es;
     [|exfalso; assert (Q : None = Some (o_state o)) by (rewrite <- P; exact Ep); discriminate].
